@@ -209,7 +209,14 @@ def tlc(spec_dir, module, cfg, workers="auto", timeout=900, simulate=None, extra
     t0 = time.time()
     env = dict(os.environ)
     env.pop("JAVA_TOOL_OPTIONS", None)
-    rc, out = run(cmd, cwd=work, timeout=timeout, env=env)
+    for attempt in range(3):
+        rc, out = run(cmd, cwd=work, timeout=timeout, env=env)
+        # a JVM killed from outside (OOM killer, signal) leaves neither a TLC error nor a completion line: retry
+        if rc in (0, ) or "Error:" in out or "Finished in" in out or "Exception" in out:
+            break
+        log("[tlc] JVM ended abnormally (rc=%s) without a TLC verdict; retry %d" % (rc, attempt + 1))
+        shutil.rmtree(meta, ignore_errors=True)
+        time.sleep(3 + 5 * attempt)
     r = TLCResult()
     r.rc, r.out, r.wall_s, r.dir = rc, out, time.time() - t0, work
     for m in _RE_STATES.finditer(out):
